@@ -1,13 +1,18 @@
+// C07 harness: print evaluated values with Value.Syntax + format.Node under the option profiles,
+// re-evaluate the text on its own, compare canonical forms (direct check of the property), and
+// hand the printed AST - strictly converted to a CoreCUE S-expression - to the extracted model.
 package main
 
 import (
 	"fmt"
 	"os"
+	"sort"
 	"strings"
 
 	"cuelang.org/go/cue"
 	"cuelang.org/go/cue/cuecontext"
 	"cuelang.org/go/cue/format"
+	"cuelang.org/go/cue/parser"
 	"cuelang.org/go/internal/verifharness/common"
 )
 
@@ -29,7 +34,7 @@ var profiles = []profile{
 func printValue(v cue.Value, opts []cue.Option) (string, error) {
 	n := v.Syntax(opts...)
 	b, err := format.Node(n)
-	return string(b), err
+	return strings.TrimSpace(string(b)), err
 }
 
 func errTree(n *CNode) bool {
@@ -50,7 +55,8 @@ func errTree(n *CNode) bool {
 }
 
 // projectValue: what the value-mode profiles (Final, Concrete) promise to show: regular and
-// required fields with regular labels, recursively; nothing about closedness or patterns.
+// required fields with regular labels, recursively; nothing about closedness or patterns
+// (Print/Model.v project_value / project_res).
 func projectValue(n *CNode) *CNode {
 	if n == nil || n.Err || !n.Struct {
 		return n
@@ -71,10 +77,282 @@ func projectValue(n *CNode) *CNode {
 	return m
 }
 
+// ---- the class of the known def-mode findings ---------------------------------------------
+// A node of the program is "suspect" when it is closed - by a definition at the root of the
+// printed value (export.Def wraps ALL conjuncts in _#def) or by close() at any level
+// (mergeValues/wrapCloseIfNecessary wraps the merged plain literals in close()) - and receives
+// a further conjunct.  Conservative: computed on the syntax of the program.
+func flattenAnd(es []Expr) []Expr {
+	var out []Expr
+	for _, e := range es {
+		if a, ok := e.(And); ok {
+			out = append(out, flattenAnd([]Expr{a.A, a.B})...)
+		} else {
+			out = append(out, e)
+		}
+	}
+	return out
+}
+
+func embedsOf(s Struct) (close, ref bool) {
+	for _, d := range s.Ds {
+		if d.H == 'e' {
+			switch d.E.(type) {
+			case Close:
+				close = true
+			case Ref:
+				ref = true
+			}
+		}
+	}
+	return
+}
+
+// structsOf: the struct literals an item contributes fields from (through close, definition
+// bodies and embeddings)
+func structsOf(e Expr) []Struct {
+	switch x := e.(type) {
+	case Struct:
+		out := []Struct{x}
+		for _, d := range x.Ds {
+			if d.H == 'e' {
+				out = append(out, structsOf(d.E)...)
+			}
+		}
+		return out
+	case Close:
+		return structsOf(x.E)
+	case Ref:
+		return structsOf(x.Body)
+	case And:
+		return append(structsOf(x.A), structsOf(x.B)...)
+	}
+	return nil
+}
+
+func suspectNode(items []Expr, top bool) bool {
+	items = flattenAnd(items)
+	nClose, nRef, nPlain, nStructish := 0, 0, 0, 0
+	for _, it := range items {
+		switch x := it.(type) {
+		case Close:
+			nClose++
+			nStructish++
+		case Ref:
+			nRef++
+			nStructish++
+		case Struct:
+			c, r := embedsOf(x)
+			if c {
+				nClose++
+			}
+			if r {
+				nRef++
+			}
+			if !c && !r {
+				nPlain++
+			}
+			nStructish++
+		}
+	}
+	if top && nRef > 0 && nStructish >= 2 {
+		return true
+	}
+	if nClose > 0 && nStructish >= 2 {
+		return true
+	}
+	// children
+	kids := map[string][]Expr{}
+	var sts []Struct
+	for _, it := range items {
+		sts = append(sts, structsOf(it)...)
+	}
+	for _, s := range sts {
+		for _, d := range s.Ds {
+			if d.H == 'f' {
+				kids[d.L.Sexp()] = append(kids[d.L.Sexp()], d.E)
+			}
+		}
+	}
+	for _, s := range sts {
+		for _, d := range s.Ds {
+			if d.H != 'p' {
+				continue
+			}
+			if _, isStruct := d.E.(Struct); !isStruct {
+				continue
+			}
+			for _, id := range patterns[d.Pat].ids() {
+				k := Label{LReg, id}.Sexp()
+				if _, ok := kids[k]; ok {
+					kids[k] = append(kids[k], d.E)
+				}
+			}
+		}
+	}
+	for _, vs := range kids {
+		if suspectNode(vs, false) {
+			return true
+		}
+	}
+	return false
+}
+
+func hasNegLess(e Expr) bool {
+	switch x := e.(type) {
+	case ScalBound:
+		return x.Z < 0 && (x.Op == "lt")
+	case And:
+		return hasNegLess(x.A) || hasNegLess(x.B)
+	case Close:
+		return hasNegLess(x.E)
+	case Ref:
+		return hasNegLess(x.Body)
+	case Struct:
+		for _, d := range x.Ds {
+			if d.E != nil && hasNegLess(d.E) {
+				return true
+			}
+		}
+	}
+	return false
+}
+
+// ---- one (program, profile) case ----------------------------------------------------------------
+type caseOut struct {
+	verdict string   // OK DIFF PARSE COMPILE FORMAT
+	flags   []string // suspect f3 outfrag conv:<msg>
+	want    string
+	got     string
+	text    string
+	sexp    string
+}
+
+func runProfile(x cue.Value, orig *CNode, pr profile, suspect bool) caseOut {
+	co := caseOut{sexp: "-", got: "-"}
+	want := orig
+	if pr.value {
+		want = projectValue(orig)
+	}
+	co.want = want.String()
+	if suspect && !pr.value {
+		co.flags = append(co.flags, "suspect")
+	}
+	text, err := printValue(x, pr.opts)
+	co.text = text
+	if err != nil {
+		co.verdict = "FORMAT"
+		return co
+	}
+	if _, perr := parser.ParseExpr("printed", text); perr != nil {
+		// known finding F3: `< -1` is written `<-1`, which lexes as the arrow token.  The class is
+		// recognised exactly: the text with a blank inserted after every `<` that precedes `-`
+		// must pass everything below.
+		fixed := strings.ReplaceAll(text, "<-", "< -")
+		if _, perr2 := parser.ParseExpr("printed", fixed); perr2 != nil || fixed == text {
+			co.verdict = "PARSE"
+			return co
+		}
+		co.flags = append(co.flags, "f3")
+		text = fixed
+	}
+	re, st := evalTree("x: "+text+"\n", "("+text+")")
+	if re == nil {
+		co.verdict = "COMPILE"
+		co.got = st
+		return co
+	}
+	co.got = re.String()
+	if co.got == co.want {
+		co.verdict = "OK"
+	} else {
+		co.verdict = "DIFF"
+	}
+	sexp, inFrag, cerr := convertText(text)
+	if cerr != nil {
+		co.flags = append(co.flags, "conv:"+strings.ReplaceAll(cerr.Error(), " ", "_"))
+	} else {
+		co.sexp = sexp
+		if !inFrag {
+			co.flags = append(co.flags, "outfrag")
+		}
+	}
+	return co
+}
+
+func (co caseOut) implLine() string {
+	fl := "-"
+	if len(co.flags) > 0 {
+		fl = strings.Join(co.flags, ",")
+	}
+	return co.verdict + " " + fl + " " + co.want + " " + co.got
+}
+
+func caseLine(p *Program, pr profile, sexp string) string {
+	var cs []string
+	for _, c := range p.Conjs {
+		cs = append(cs, c.Sexp())
+	}
+	mode := "d"
+	if pr.value {
+		mode = "v"
+	}
+	return "P " + mode + " " + labsSexp() + " " + atomsSexp() + " | " + strings.Join(cs, " ; ") + " | " + sexp
+}
+
+func runPrograms(a map[string]string, r *common.Rng, n int) {
+	out := common.NewOut(a["--out"])
+	defer out.Close()
+	src, _ := os.Create(a["--out"] + "/src.txt")
+	defer src.Close()
+	g := NewGen(r, GenCfg{MaxDepth: common.Atoi(a["--depth"], 3), Closedness: true, Bounds: true, NegBounds: true})
+	stats := map[string]int{}
+	for i := 0; i < n; i++ {
+		if i%3 == 0 {
+			g.cfg.MaxDepth = 2
+		} else {
+			g.cfg.MaxDepth = common.Atoi(a["--depth"], 3)
+		}
+		p := g.Program()
+		text := p.CUE()
+		orig, _ := evalTree(text, p.Inline())
+		if orig == nil || errTree(orig) {
+			stats["programs-erroneous"]++
+			continue
+		}
+		stats["programs-evaluable"]++
+		ctx := cuecontext.New()
+		v := ctx.CompileString(text)
+		x := v.LookupPath(cue.ParsePath("x"))
+		suspect := suspectNode(p.Conjs, true)
+		if suspect {
+			stats["programs-suspect"]++
+		}
+		for _, pr := range profiles {
+			if pr.name == "raw" && len(p.Defs) > 0 {
+				stats["raw-skipped-dangling-references"]++
+				continue
+			}
+			co := runProfile(x, orig, pr, suspect)
+			fmt.Fprintf(src, "### %d %s\n%s--- printed\n%s\n", out.N, pr.name, text, co.text)
+			out.Emit(caseLine(p, pr, co.sexp), co.implLine())
+		}
+	}
+	var keys []string
+	for k := range stats {
+		keys = append(keys, k)
+	}
+	sort.Strings(keys)
+	for _, k := range keys {
+		fmt.Fprintf(os.Stderr, "stat %s %d\n", k, stats[k])
+	}
+}
+
 func main() {
 	a := common.Args(os.Args[1:])
 	seed := uint64(common.Atoi(a["--seed"], 1))
 	n := common.Atoi(a["--n"], 200)
+	r := common.NewRng(seed)
 	switch a["--mode"] {
 	case "show":
 		data, _ := os.ReadFile(a["--file"])
@@ -84,75 +362,37 @@ func main() {
 		for _, p := range profiles {
 			s, err := printValue(x, p.opts)
 			fmt.Printf("=== %s err=%v\n%s\n", p.name, err, s)
+			sx, in, cerr := convertText(s)
+			fmt.Printf("--- sexp (inFragment=%v err=%v)\n%s\n", in, cerr, sx)
 		}
-	case "explore":
-		r := common.NewRng(seed)
-		g := NewGen(r, GenCfg{MaxDepth: common.Atoi(a["--depth"], 3), Closedness: a["--closed"] != "0", Bounds: true})
-		stats := map[string]int{}
-		shown := map[string]int{}
-		for i := 0; i < n; i++ {
-			p := g.Program()
-			text := p.CUE()
-			orig, st := evalTree(text, p.Inline())
-			if orig == nil || errTree(orig) {
-				stats["orig-"+st+"-err"]++
+	case "replay":
+		// direct check of the property on one program text (field x) under one or all profiles
+		data, _ := os.ReadFile(a["--file"])
+		text := string(data)
+		orig, st := evalTree(text, "x")
+		if orig == nil || errTree(orig) {
+			fmt.Printf("ORIG-ERROR %s\n", st)
+			return
+		}
+		ctx := cuecontext.New()
+		v := ctx.CompileString(text)
+		x := v.LookupPath(cue.ParsePath("x"))
+		for _, pr := range profiles {
+			if a["--profile"] != "" && a["--profile"] != pr.name {
 				continue
 			}
-			stats["evaluable"]++
-			single := len(p.Conjs) == 1
-			if _, isAnd := p.Conjs[0].(And); isAnd {
-				single = false
-			}
-			ctx := cuecontext.New()
-			v := ctx.CompileString(text)
-			x := v.LookupPath(cue.ParsePath("x"))
-			for _, pr := range profiles {
-				if a["--only"] != "" && pr.name != a["--only"] {
-					continue
-				}
-				out, err := printValue(x, pr.opts)
-				key := pr.name + ":"
-				if single {
-					key += "single:"
-				}
-				if err != nil {
-					key += "format-error"
-				} else {
-					out = strings.TrimSpace(out)
-					re, st2 := evalTree("x: "+out+"\n", "("+out+")")
-					want := orig
-					if pr.value {
-						want = projectValue(orig)
-					}
-					switch {
-					case re == nil:
-						key += "reeval-" + st2
-					case re.String() == want.String():
-						key += "ok"
-					default:
-						key += "differs"
-						if strings.Contains(out, "_#def") {
-							key += "+def"
-						}
-						if strings.Contains(out, "close(") {
-							key += "+close"
-						}
-					}
-					if !strings.HasSuffix(key, ":ok") && (a["--grep"] == "" || key == a["--grep"]) && shown[key] < common.Atoi(a["--show"], 2) {
-						shown[key]++
-						fmt.Printf("##### %s\n%s--- printed\n%s\n--- want %s\n--- got  %s\n", key, text, out, want.String(), func() string {
-							if re == nil {
-								return st2
-							}
-							return re.String()
-						}())
-					}
-				}
-				stats[key]++
-			}
+			co := runProfile(x, orig, pr, false)
+			fmt.Printf("%s %s\n--- printed\n%s\n", pr.name, co.implLine(), co.text)
 		}
-		for k, v := range stats {
-			fmt.Println(k, v)
-		}
+	case "run", "":
+		runPrograms(a, r, n)
+	case "bounds":
+		runBounds(a, r, n)
+	case "corpus":
+		runCorpus(a)
+	case "filecheck":
+		fileCheck(a)
+	case "evalsexp":
+		runEvalSexp(a)
 	}
 }
